@@ -25,6 +25,7 @@ import (
 type Config struct {
 	Chunking      bool // tape-chosen read chunk sizes (else whole buffers)
 	ForceChunked  int  // permille: send request body with chunked transfer encoding
+	DoubleClose   int  // permille: the request body is closed twice (legal: net/http's client does on some paths)
 	HeaderNoise   int  // permille: change header-name case / order, add unrelated headers
 	CutRequest    int
 	FlipRequest   int
@@ -162,6 +163,13 @@ func (n *Net) Do(req *http.Request) (*http.Response, error) {
 
 func (n *Net) do(req *http.Request, ex *Exchange) (*http.Response, error) {
 	t := n.Tape
+	// calling the transport is a scheduling point: other clients may build and send requests between
+	// the moment this one was encoded and the moment its body is read
+	n.yield("net-do")
+	// a transport always closes the request body (RoundTripper contract), and net/http's client closes it a
+	// second time on some paths (a redirect followed as GET, an error after the body was handed over):
+	// Close must tolerate being called again
+	orig, replaced := req.Body, false
 	// 1. serialise
 	if req.Body != nil && req.Body != http.NoBody && n.hit("force-chunked", n.Cfg.ForceChunked) {
 		req.ContentLength = -1
@@ -175,6 +183,7 @@ func (n *Net) do(req *http.Request, ex *Exchange) (*http.Response, error) {
 			return nil, err
 		}
 		req.Body = io.NopCloser(bytes.NewReader(b))
+		replaced = true
 		req.ContentLength = int64(len(b))
 		if len(b) == 0 {
 			req.Body = http.NoBody
@@ -190,6 +199,15 @@ func (n *Net) do(req *http.Request, ex *Exchange) (*http.Response, error) {
 	var wire bytes.Buffer
 	if err := req.Write(&wire); err != nil {
 		return nil, fmt.Errorf("simnet: request cannot be written: %w", err)
+	}
+	if orig != nil && orig != http.NoBody {
+		if replaced {
+			_ = orig.Close() // (Request.Write closed the body it was given)
+		}
+		if n.hit("double-close", n.Cfg.DoubleClose) {
+			_ = orig.Close()
+			ex.Faults = append(ex.Faults, "perturb:body-closed-twice")
+		}
 	}
 	ex.ReqWire = append([]byte(nil), wire.Bytes()...)
 	ex.Target = req.URL.RequestURI()
